@@ -5,8 +5,14 @@ import MJ.Proofs.EvalFrame
 
 `relStmt` / `relBlock`: the code of a statement of the fragment with resolved jump targets;
 `cStmt_eq_rel`: the back-patching generator of `MJ.Compile` produces exactly this code.
-Fragment: text, emit, `set x = e`, `if`/`elif`/`else`, `with x = e, …`, `for x in e` (no filter, no
-`else`, no loop controls).
+Fragment: text, emit, `set`, set-blocks, filter-blocks, `if`/`elif`/`else`, `with`,
+`for … if … else` with unpacking, `break`, `continue`.
+
+`break` is the only construct whose jump is patched *across* statements (the generator records
+the jump in the pending entry of the innermost loop and patches it when the loop ends), so the
+code of a statement is described relative to a loop context `LoopCtx` (address of the loop's
+`Iterate`, address behind the loop, scopes opened inside the loop), and the statement's
+unresolved `break` jumps are returned next to the code.
 -/
 namespace MJ.Compile
 open MJ.Eval
@@ -21,24 +27,28 @@ def simpleFilters : List FilterApp → Bool
   | [] => true
   | (_, args) :: rest => simpleArgs args && simpleFilters rest
 
+
 mutual
   /-- the stage-3 statement fragment: text, `{{ e }}`, `set` (incl. unpacking), set-blocks and
-  filter-blocks, `if` / `elif` / `else`, `with`, `for … if … else` with unpacking and loop filter (no
-  `break` / `continue`) -/
-  def simpleStmt : Stmt → Bool
-    | .text _ => true
-    | .emit e => simpleExpr e
-    | .set _ e => simpleExpr e
-    | .ifS c t f => simpleExpr c && simpleBlock t && simpleBlock f
-    | .withS binds body => simpleBinds binds && simpleBlock body
-    | .forS _ iter flt body els =>
-      simpleExpr iter && (match flt with | some c => simpleExpr c | none => true) && simpleBlock body && simpleBlock els
-    | .setBlock _ filters body => simpleFilters filters && simpleBlock body
-    | .filterBlock filters body => simpleFilters filters && simpleBlock body
-    | _ => false
-  def simpleBlock : List Stmt → Bool
-    | [] => true
-    | s :: rest => simpleStmt s && simpleBlock rest
+  filter-blocks, `if` / `elif` / `else`, `with`, `for … if … else` with unpacking and loop filter,
+  `break` / `continue` (inside a loop: `inLoop`) -/
+  def simpleStmt : Bool → Stmt → Bool
+    | _, .text _ => true
+    | _, .emit e => simpleExpr e
+    | _, .set _ e => simpleExpr e
+    | inLoop, .ifS c t f => simpleExpr c && simpleBlock inLoop t && simpleBlock inLoop f
+    | inLoop, .withS binds body => simpleBinds binds && simpleBlock inLoop body
+    | inLoop, .forS _ iter flt body els =>
+      simpleExpr iter && (match flt with | some c => simpleExpr c | none => true) && simpleBlock true body &&
+        simpleBlock inLoop els
+    | inLoop, .setBlock _ filters body => simpleFilters filters && simpleBlock inLoop body
+    | inLoop, .filterBlock filters body => simpleFilters filters && simpleBlock inLoop body
+    | inLoop, .breakS => inLoop
+    | inLoop, .continueS => inLoop
+    | _, _ => false
+  def simpleBlock : Bool → List Stmt → Bool
+    | _, [] => true
+    | inLoop, s :: rest => simpleStmt inLoop s && simpleBlock inLoop rest
 end
 
 mutual
@@ -79,55 +89,407 @@ def relForIter (t : Target) (iter : Expr) (flt : Option Expr) (base : Nat) (a : 
       [.jumpIfFalse (p + 5), .swap, .loadConst (.int 1), .add, .jump (p + 6), .discardTop, .jump it1,
        .popLoopFrame, .buildList none], rc.2)
 
+
+/-- the innermost enclosing loop of a statement -/
+structure LoopCtx where
+  /-- address of the loop's `Iterate` (target of `continue`) -/
+  iter : Nat
+  /-- address behind the loop's back jump (target of `break`) -/
+  exit : Nat
+  /-- the `with` / capture scopes opened inside the loop, innermost first -/
+  scopes : List ScopeKind
+
+def pushScope (k : ScopeKind) : Option LoopCtx → Option LoopCtx
+  | none => none
+  | some l => some { l with scopes := k :: l.scopes }
+
+def setExit (E : Nat) : Option LoopCtx → Option LoopCtx
+  | none => none
+  | some l => some { l with exit := E }
+
+theorem setExit_some (E : Nat) (l : LoopCtx) : setExit E (some l) = some ⟨l.iter, E, l.scopes⟩ := rfl
+@[simp] theorem pushScope_setExit (k : ScopeKind) (E : Nat) (lc : Option LoopCtx) :
+    pushScope k (setExit E lc) = setExit E (pushScope k lc) := by cases lc <;> rfl
+@[simp] theorem setExit_setExit (E E' : Nat) (lc : Option LoopCtx) : setExit E (setExit E' lc) = setExit E lc := by
+  cases lc <;> rfl
+@[simp] theorem isSome_setExit (E : Nat) (lc : Option LoopCtx) : (setExit E lc).isSome = lc.isSome := by
+  cases lc <;> rfl
+@[simp] theorem isSome_pushScope (k : ScopeKind) (lc : Option LoopCtx) : (pushScope k lc).isSome = lc.isSome := by
+  cases lc <;> rfl
+
+/-- `leave_scopes`: what `break` / `continue` emit for the scopes they jump out of -/
+def leaveCode : List ScopeKind → List Instr
+  | [] => []
+  | .with_ :: rest => .popFrame :: leaveCode rest
+  | .capture :: rest => .endCapture :: .discardTop :: leaveCode rest
+
 mutual
-  def relStmt : Stmt → Nat → Aux → List Instr × Aux
-    | .text t, _, a => ([.emitRaw t], a)
-    | .emit e, base, a => ((relExpr e base a).1 ++ [.emit], (relExpr e base a).2)
-    | .set t e, base, a => ((relExpr e base a).1 ++ relTarget t, (relExpr e base a).2)
-    | .ifS c t [], base, a =>
+  /-- code and generator state of a statement, and the addresses of its `break` jumps -/
+  def relStmt : Stmt → Nat → Aux → Option LoopCtx → (List Instr × Aux) × List Nat
+    | .text t, _, a, _ => (([.emitRaw t], a), [])
+    | .emit e, base, a, _ => (((relExpr e base a).1 ++ [.emit], (relExpr e base a).2), [])
+    | .set t e, base, a, _ => (((relExpr e base a).1 ++ relTarget t, (relExpr e base a).2), [])
+    | .ifS c t [], base, a, lc =>
       let rc := relExpr c base a
-      let rt := relBlock t (base + rc.1.length + 1) rc.2
-      (rc.1 ++ [.jumpIfFalse (base + rc.1.length + 1 + rt.1.length)] ++ rt.1, rt.2)
-    | .ifS c t (f :: fs), base, a =>
+      let rt := relBlock t (base + rc.1.length + 1) rc.2 lc
+      ((rc.1 ++ [.jumpIfFalse (base + rc.1.length + 1 + rt.1.1.length)] ++ rt.1.1, rt.1.2), rt.2)
+    | .ifS c t (f :: fs), base, a, lc =>
       let rc := relExpr c base a
-      let rt := relBlock t (base + rc.1.length + 1) rc.2
-      let fb := base + rc.1.length + 1 + rt.1.length + 1
-      let rf := relBlock (f :: fs) fb rt.2
-      (rc.1 ++ [.jumpIfFalse fb] ++ rt.1 ++ [.jump (fb + rf.1.length)] ++ rf.1, rf.2)
-    | .withS binds body, base, a =>
+      let rt := relBlock t (base + rc.1.length + 1) rc.2 lc
+      let fb := base + rc.1.length + 1 + rt.1.1.length + 1
+      let rf := relBlock (f :: fs) fb rt.1.2 lc
+      ((rc.1 ++ [.jumpIfFalse fb] ++ rt.1.1 ++ [.jump (fb + rf.1.1.length)] ++ rf.1.1, rf.1.2), rt.2 ++ rf.2)
+    | .withS binds body, base, a, lc =>
       let rb := relBinds binds (base + 1) a
-      let rr := relBlock body (base + 1 + rb.1.length) rb.2
-      ([.pushWith] ++ rb.1 ++ rr.1 ++ [.popFrame], rr.2)
-    | .forS t iter flt body [], base, a =>
+      let rr := relBlock body (base + 1 + rb.1.length) rb.2 (pushScope .with_ lc)
+      (([.pushWith] ++ rb.1 ++ rr.1.1 ++ [.popFrame], rr.1.2), rr.2)
+    | .forS t iter flt body [], base, a, _ =>
       let ri := relForIter t iter flt base a
       let bb := base + ri.1.length + 2 + (relTarget t).length
-      let rb := relBlock body bb ri.2
-      (ri.1 ++ [.pushLoop 1, .iterate (bb + rb.1.length + 1)] ++ relTarget t ++ rb.1 ++
-        [.jump (base + ri.1.length + 1), .popLoopFrame], rb.2)
-    | .forS t iter flt body (e0 :: es), base, a =>
+      -- the length of the body does not depend on the address behind the loop
+      let len := (relBlock body bb ri.2 (some ⟨base + ri.1.length + 1, 0, []⟩)).1.1.length
+      let rb := relBlock body bb ri.2 (some ⟨base + ri.1.length + 1, bb + len + 1, []⟩)
+      ((ri.1 ++ [.pushLoop 1, .iterate (bb + len + 1)] ++ relTarget t ++ rb.1.1 ++
+        [.jump (base + ri.1.length + 1), .popLoopFrame], rb.1.2), [])
+    | .forS t iter flt body (e0 :: es), base, a, lc =>
       let ri := relForIter t iter flt base a
       let bb := base + ri.1.length + 2 + (relTarget t).length
-      let rb := relBlock body bb ri.2
-      let eb := bb + rb.1.length + 4
-      let re := relBlock (e0 :: es) eb rb.2
-      (ri.1 ++ [.pushLoop 1, .iterate (bb + rb.1.length + 1)] ++ relTarget t ++ rb.1 ++
-        [.jump (base + ri.1.length + 1), .pushDidNotIterate, .popLoopFrame, .jumpIfFalse (eb + re.1.length)] ++ re.1, re.2)
-    | .setBlock x filters body, base, a =>
-      let rb := relBlock body (base + 1) a
-      let rf := relFilters filters (base + 1 + rb.1.length + 1) rb.2
-      ([.beginCapture] ++ rb.1 ++ [.endCapture] ++ rf.1 ++ [.storeLocal x], rf.2)
-    | .filterBlock filters body, base, a =>
-      let rb := relBlock body (base + 1) a
-      let rf := relFilters filters (base + 1 + rb.1.length + 1) rb.2
-      ([.beginCapture] ++ rb.1 ++ [.endCapture] ++ rf.1 ++ [.emit], rf.2)
-    | _, _, a => ([], a.markOof)
-  def relBlock : List Stmt → Nat → Aux → List Instr × Aux
-    | [], _, a => ([], a)
-    | s :: rest, base, a =>
-      let rs := relStmt s base a
-      let rr := relBlock rest (base + rs.1.length) rs.2
-      (rs.1 ++ rr.1, rr.2)
+      let len := (relBlock body bb ri.2 (some ⟨base + ri.1.length + 1, 0, []⟩)).1.1.length
+      let rb := relBlock body bb ri.2 (some ⟨base + ri.1.length + 1, bb + len + 1, []⟩)
+      let eb := bb + len + 4
+      let re := relBlock (e0 :: es) eb rb.1.2 lc
+      ((ri.1 ++ [.pushLoop 1, .iterate (bb + len + 1)] ++ relTarget t ++ rb.1.1 ++
+        [.jump (base + ri.1.length + 1), .pushDidNotIterate, .popLoopFrame, .jumpIfFalse (eb + re.1.1.length)] ++ re.1.1,
+        re.1.2), re.2)
+    | .setBlock x filters body, base, a, lc =>
+      let rb := relBlock body (base + 1) a (pushScope .capture lc)
+      let rf := relFilters filters (base + 1 + rb.1.1.length + 1) rb.1.2
+      (([.beginCapture] ++ rb.1.1 ++ [.endCapture] ++ rf.1 ++ [.storeLocal x], rf.2), rb.2)
+    | .filterBlock filters body, base, a, lc =>
+      let rb := relBlock body (base + 1) a (pushScope .capture lc)
+      let rf := relFilters filters (base + 1 + rb.1.1.length + 1) rb.1.2
+      (([.beginCapture] ++ rb.1.1 ++ [.endCapture] ++ rf.1 ++ [.emit], rf.2), rb.2)
+    | .breakS, base, a, some l =>
+      ((leaveCode l.scopes ++ [.jump l.exit], a), [base + (leaveCode l.scopes).length])
+    | .continueS, _, a, some l => ((leaveCode l.scopes ++ [.jump l.iter], a), [])
+    | _, _, a, _ => (([], a.markOof), [])
+  def relBlock : List Stmt → Nat → Aux → Option LoopCtx → (List Instr × Aux) × List Nat
+    | [], _, a, _ => (([], a), [])
+    | s :: rest, base, a, lc =>
+      let rs := relStmt s base a lc
+      let rr := relBlock rest (base + rs.1.1.length) rs.1.2 lc
+      ((rs.1.1 ++ rr.1.1, rr.1.2), rs.2 ++ rr.2)
 end
+
+/-! ## `break` jumps: placeholder code against patched code -/
+
+/-- `LE` is `L0` (placed at `b`) with the `Jump 0` at the addresses `ps` replaced by `Jump E` -/
+inductive Patched (E : Nat) : Nat → List Nat → List Instr → List Instr → Prop
+  | nil (b : Nat) : Patched E b [] [] []
+  | same {b : Nat} {ps : List Nat} {L0 LE : List Instr} (i : Instr) :
+      Patched E (b + 1) ps L0 LE → Patched E b ps (i :: L0) (i :: LE)
+  | brk {b : Nat} {ps : List Nat} {L0 LE : List Instr} :
+      Patched E (b + 1) ps L0 LE → Patched E b (b :: ps) (.jump 0 :: L0) (.jump E :: LE)
+
+theorem Patched.refl (E : Nat) : ∀ (L : List Instr) (b : Nat), Patched E b [] L L
+  | [], b => .nil b
+  | i :: L, b => .same i (Patched.refl E L (b + 1))
+
+theorem Patched.length_eq {E b ps L0 LE} (h : Patched E b ps L0 LE) : LE.length = L0.length := by
+  induction h with
+  | nil => rfl
+  | same i _ ih => simp [ih]
+  | brk _ ih => simp [ih]
+
+theorem Patched.append {E b p1 A0 AE} (h : Patched E b p1 A0 AE) {p2 B0 BE}
+    (h2 : Patched E (b + A0.length) p2 B0 BE) : Patched E b (p1 ++ p2) (A0 ++ B0) (AE ++ BE) := by
+  induction h with
+  | nil b => simpa using h2
+  | same i _ ih =>
+    refine .same i (ih ?_)
+    simpa [Nat.add_assoc, Nat.add_comm 1] using h2
+  | brk _ ih =>
+    refine .brk (ih ?_)
+    simpa [Nat.add_assoc, Nat.add_comm 1] using h2
+
+theorem Patched.pre {E b ps L0 LE} (A : List Instr) (h : Patched E (b + A.length) ps L0 LE) :
+    Patched E b ps (A ++ L0) (A ++ LE) := by
+  simpa using (Patched.refl E A b).append h
+
+theorem Patched.post {E b ps L0 LE} (A : List Instr) (h : Patched E b ps L0 LE) :
+    Patched E b ps (L0 ++ A) (LE ++ A) := by
+  simpa using h.append (Patched.refl E A _)
+
+theorem Patched.cast {E b b' ps L0 LE} (h : Patched E b ps L0 LE) (hb : b = b') : Patched E b' ps L0 LE := by
+  subst hb; exact h
+
+
+mutual
+/-- the code of a statement depends on the address behind the enclosing loop only in the targets
+of its `break` jumps -/
+theorem relStmt_patched : ∀ (st : Stmt) (base : Nat) (a : Aux) (lc : Option LoopCtx) (E : Nat),
+    Patched E base (relStmt st base a (setExit 0 lc)).2 (relStmt st base a (setExit 0 lc)).1.1
+        (relStmt st base a (setExit E lc)).1.1 ∧
+      (relStmt st base a (setExit E lc)).1.2 = (relStmt st base a (setExit 0 lc)).1.2 ∧
+      (relStmt st base a (setExit E lc)).2 = (relStmt st base a (setExit 0 lc)).2
+  | .text t, base, a, lc, E => by simp [relStmt, Patched.refl]
+  | .emit e, base, a, lc, E => by simp [relStmt, Patched.refl]
+  | .set t e, base, a, lc, E => by simp [relStmt, Patched.refl]
+  | .ifS c t [], base, a, lc, E => by
+    obtain ⟨h1, h2, h3⟩ := relBlock_patched t (base + (relExpr c base a).1.length + 1) (relExpr c base a).2 lc E
+    simp only [relStmt]
+    rw [h2, h3, h1.length_eq]
+    refine ⟨?_, rfl, rfl⟩
+    have := (Patched.pre (b := base) ((relExpr c base a).1 ++ [Instr.jumpIfFalse (base + (relExpr c base a).1.length + 1 +
+      (relBlock t (base + (relExpr c base a).1.length + 1) (relExpr c base a).2 (setExit 0 lc)).1.1.length)])
+      (h1.cast (by simp only [List.length_append, List.length_cons, List.length_nil]; omega)))
+    simpa using this
+  | .ifS c t (f :: fs), base, a, lc, E => by
+    obtain ⟨h1, h2, h3⟩ := relBlock_patched t (base + (relExpr c base a).1.length + 1) (relExpr c base a).2 lc E
+    obtain ⟨k1, k2, k3⟩ := relBlock_patched (f :: fs) (base + (relExpr c base a).1.length + 1 +
+      (relBlock t (base + (relExpr c base a).1.length + 1) (relExpr c base a).2 (setExit 0 lc)).1.1.length + 1)
+      (relBlock t (base + (relExpr c base a).1.length + 1) (relExpr c base a).2 (setExit 0 lc)).1.2 lc E
+    simp only [relStmt]
+    rw [h2, h3, h1.length_eq, k2, k3, k1.length_eq]
+    refine ⟨?_, rfl, rfl⟩
+    have e1 := Patched.pre (b := base) ((relExpr c base a).1 ++ [Instr.jumpIfFalse (base + (relExpr c base a).1.length + 1 +
+      (relBlock t (base + (relExpr c base a).1.length + 1) (relExpr c base a).2 (setExit 0 lc)).1.1.length + 1)])
+      (h1.cast (by simp only [List.length_append, List.length_cons, List.length_nil]; omega))
+    have e2 := e1.append (Patched.pre [Instr.jump (base + (relExpr c base a).1.length + 1 +
+      (relBlock t (base + (relExpr c base a).1.length + 1) (relExpr c base a).2 (setExit 0 lc)).1.1.length + 1 +
+      (relBlock (f :: fs) (base + (relExpr c base a).1.length + 1 +
+      (relBlock t (base + (relExpr c base a).1.length + 1) (relExpr c base a).2 (setExit 0 lc)).1.1.length + 1)
+      (relBlock t (base + (relExpr c base a).1.length + 1) (relExpr c base a).2 (setExit 0 lc)).1.2 (setExit 0 lc)).1.1.length)]
+      (k1.cast (by simp only [List.length_append, List.length_cons, List.length_nil]; omega)))
+    simpa using e2
+  | .withS binds body, base, a, lc, E => by
+    obtain ⟨h1, h2, h3⟩ := relBlock_patched body (base + 1 + (relBinds binds (base + 1) a).1.length)
+      (relBinds binds (base + 1) a).2 (pushScope .with_ lc) E
+    simp only [relStmt, pushScope_setExit]
+    rw [h2, h3]
+    refine ⟨?_, rfl, rfl⟩
+    have := (Patched.pre (b := base) ([Instr.pushWith] ++ (relBinds binds (base + 1) a).1) (h1.cast (by simp only [List.length_append, List.length_cons, List.length_nil]; omega))).post [Instr.popFrame]
+    simpa using this
+  | .forS t iter flt body [], base, a, lc, E => by simp [relStmt, Patched.refl]
+  | .forS t iter flt body (e0 :: es), base, a, lc, E => by
+    simp only [relStmt]
+    obtain ⟨k1, k2, k3⟩ := relBlock_patched (e0 :: es)
+      (base + (relForIter t iter flt base a).1.length + 2 + (relTarget t).length +
+        (relBlock body (base + (relForIter t iter flt base a).1.length + 2 + (relTarget t).length) (relForIter t iter flt base a).2
+          (some ⟨base + (relForIter t iter flt base a).1.length + 1, 0, []⟩)).1.1.length + 4)
+      (relBlock body (base + (relForIter t iter flt base a).1.length + 2 + (relTarget t).length) (relForIter t iter flt base a).2
+        (some ⟨base + (relForIter t iter flt base a).1.length + 1,
+          base + (relForIter t iter flt base a).1.length + 2 + (relTarget t).length +
+            (relBlock body (base + (relForIter t iter flt base a).1.length + 2 + (relTarget t).length) (relForIter t iter flt base a).2
+              (some ⟨base + (relForIter t iter flt base a).1.length + 1, 0, []⟩)).1.1.length + 1, []⟩)).1.2 lc E
+    rw [k2, k3, k1.length_eq]
+    refine ⟨?_, rfl, rfl⟩
+    refine Patched.pre (b := base) _ (k1.cast ?_)
+    have hl := (relBlock_patched body (base + (relForIter t iter flt base a).1.length + 2 + (relTarget t).length)
+      (relForIter t iter flt base a).2 (some ⟨base + (relForIter t iter flt base a).1.length + 1, 0, []⟩)
+      (base + (relForIter t iter flt base a).1.length + 2 + (relTarget t).length +
+        (relBlock body (base + (relForIter t iter flt base a).1.length + 2 + (relTarget t).length) (relForIter t iter flt base a).2
+          (some ⟨base + (relForIter t iter flt base a).1.length + 1, 0, []⟩)).1.1.length + 1)).1.length_eq
+    simp only [setExit] at hl
+    simp only [List.length_append, List.length_cons, List.length_nil]; omega
+  | .setBlock x filters body, base, a, lc, E => by
+    obtain ⟨h1, h2, h3⟩ := relBlock_patched body (base + 1) a (pushScope .capture lc) E
+    simp only [relStmt, pushScope_setExit]
+    rw [h2, h3, h1.length_eq]
+    refine ⟨?_, rfl, rfl⟩
+    have := (Patched.pre (b := base) [Instr.beginCapture] (h1.cast (by simp))).post
+      ([Instr.endCapture] ++ (relFilters filters (base + 1 + (relBlock body (base + 1) a (setExit 0 (pushScope .capture lc))).1.1.length + 1)
+        (relBlock body (base + 1) a (setExit 0 (pushScope .capture lc))).1.2).1 ++ [Instr.storeLocal x])
+    simpa using this
+  | .filterBlock filters body, base, a, lc, E => by
+    obtain ⟨h1, h2, h3⟩ := relBlock_patched body (base + 1) a (pushScope .capture lc) E
+    simp only [relStmt, pushScope_setExit]
+    rw [h2, h3, h1.length_eq]
+    refine ⟨?_, rfl, rfl⟩
+    have := (Patched.pre (b := base) [Instr.beginCapture] (h1.cast (by simp))).post
+      ([Instr.endCapture] ++ (relFilters filters (base + 1 + (relBlock body (base + 1) a (setExit 0 (pushScope .capture lc))).1.1.length + 1)
+        (relBlock body (base + 1) a (setExit 0 (pushScope .capture lc))).1.2).1 ++ [Instr.emit])
+    simpa using this
+  | .breakS, base, a, none, E => by simp [relStmt, setExit, Patched.refl]
+  | .breakS, base, a, some l, E => by
+    simp only [relStmt, setExit]
+    refine ⟨?_, trivial, trivial⟩
+    exact Patched.pre (b := base) _ (.brk (.nil _))
+  | .continueS, base, a, none, E => by simp [relStmt, setExit, Patched.refl]
+  | .continueS, base, a, some l, E => by simp [relStmt, setExit, Patched.refl]
+  | .macroS .., base, a, lc, E => by simp [relStmt, Patched.refl]
+  | .callBlock .., base, a, lc, E => by simp [relStmt, Patched.refl]
+theorem relBlock_patched : ∀ (ss : List Stmt) (base : Nat) (a : Aux) (lc : Option LoopCtx) (E : Nat),
+    Patched E base (relBlock ss base a (setExit 0 lc)).2 (relBlock ss base a (setExit 0 lc)).1.1
+        (relBlock ss base a (setExit E lc)).1.1 ∧
+      (relBlock ss base a (setExit E lc)).1.2 = (relBlock ss base a (setExit 0 lc)).1.2 ∧
+      (relBlock ss base a (setExit E lc)).2 = (relBlock ss base a (setExit 0 lc)).2
+  | [], base, a, lc, E => by simp [relBlock, Patched.refl]
+  | s :: rest, base, a, lc, E => by
+    obtain ⟨h1, h2, h3⟩ := relStmt_patched s base a lc E
+    obtain ⟨k1, k2, k3⟩ := relBlock_patched rest (base + (relStmt s base a (setExit 0 lc)).1.1.length)
+      (relStmt s base a (setExit 0 lc)).1.2 lc E
+    simp only [relBlock]
+    rw [h2, h3, h1.length_eq, k2, k3]
+    exact ⟨h1.append k1, rfl, rfl⟩
+end
+
+/-- the length of a block does not depend on the address behind the enclosing loop -/
+theorem relBlock_exit_indep (ss : List Stmt) (base : Nat) (a : Aux) (it E : Nat) (sc : List ScopeKind) :
+    (relBlock ss base a (some ⟨it, E, sc⟩)).1.1.length = (relBlock ss base a (some ⟨it, 0, sc⟩)).1.1.length ∧
+    (relBlock ss base a (some ⟨it, E, sc⟩)).1.2 = (relBlock ss base a (some ⟨it, 0, sc⟩)).1.2 := by
+  have h := relBlock_patched ss base a (some ⟨it, 0, sc⟩) E
+  simp only [setExit] at h
+  exact ⟨h.1.length_eq, h.2.1⟩
+
+/-- the address behind a `for` loop (the target of its `break` jumps and of its `Iterate`) -/
+def forExit (t : Target) (iter : Expr) (flt : Option Expr) (body : List Stmt) (base : Nat) (a : Aux) : Nat :=
+  base + (relForIter t iter flt base a).1.length + 2 + (relTarget t).length +
+    (relBlock body (base + (relForIter t iter flt base a).1.length + 2 + (relTarget t).length) (relForIter t iter flt base a).2
+      (some ⟨base + (relForIter t iter flt base a).1.length + 1, 0, []⟩)).1.1.length + 1
+
+/-- the body of a `for` loop as it is compiled -/
+def forBody (t : Target) (iter : Expr) (flt : Option Expr) (body : List Stmt) (base : Nat) (a : Aux) :
+    (List Instr × Aux) × List Nat :=
+  relBlock body (base + (relForIter t iter flt base a).1.length + 2 + (relTarget t).length) (relForIter t iter flt base a).2
+    (some ⟨base + (relForIter t iter flt base a).1.length + 1, forExit t iter flt body base a, []⟩)
+
+theorem forExit_eq (t : Target) (iter : Expr) (flt : Option Expr) (body : List Stmt) (base : Nat) (a : Aux) :
+    forExit t iter flt body base a = base + (relForIter t iter flt base a).1.length + 2 + (relTarget t).length +
+      (forBody t iter flt body base a).1.1.length + 1 := by
+  simp only [forBody]
+  rw [(relBlock_exit_indep _ _ _ _ _ _).1]
+  rfl
+
+theorem relStmt_for_nil (t : Target) (iter : Expr) (flt : Option Expr) (body : List Stmt) (base : Nat) (a : Aux)
+    (lc : Option LoopCtx) :
+    relStmt (.forS t iter flt body []) base a lc =
+      (((relForIter t iter flt base a).1 ++ [.pushLoop 1, .iterate (forExit t iter flt body base a)] ++ relTarget t ++
+        (forBody t iter flt body base a).1.1 ++ [.jump (base + (relForIter t iter flt base a).1.length + 1), .popLoopFrame],
+        (forBody t iter flt body base a).1.2), []) := by
+  simp only [relStmt, forBody, forExit]
+
+theorem relStmt_for_cons (t : Target) (iter : Expr) (flt : Option Expr) (body : List Stmt) (e0 : Stmt) (es : List Stmt)
+    (base : Nat) (a : Aux) (lc : Option LoopCtx) :
+    relStmt (.forS t iter flt body (e0 :: es)) base a lc =
+      (((relForIter t iter flt base a).1 ++ [.pushLoop 1, .iterate (forExit t iter flt body base a)] ++ relTarget t ++
+        (forBody t iter flt body base a).1.1 ++ [.jump (base + (relForIter t iter flt base a).1.length + 1),
+          .pushDidNotIterate, .popLoopFrame,
+          .jumpIfFalse (forExit t iter flt body base a + 3 +
+            (relBlock (e0 :: es) (forExit t iter flt body base a + 3) (forBody t iter flt body base a).1.2 lc).1.1.length)] ++
+        (relBlock (e0 :: es) (forExit t iter flt body base a + 3) (forBody t iter flt body base a).1.2 lc).1.1,
+        (relBlock (e0 :: es) (forExit t iter flt body base a + 3) (forBody t iter flt body base a).1.2 lc).1.2),
+       (relBlock (e0 :: es) (forExit t iter flt body base a + 3) (forBody t iter flt body base a).1.2 lc).2) := by
+  simp only [relStmt, forBody, forExit]
+
+/-! ## the generator state with recorded `break` jumps -/
+
+def CG.addBreak (g : CG) (j : Nat) : CG := { g with pending := CG.addBreakJump j g.pending }
+/-- the generator state after the `break` jumps at `ps` were recorded in the innermost loop -/
+def CG.withBreaks (g : CG) (ps : List Nat) : CG := ps.foldl CG.addBreak g
+
+@[simp] theorem CG.withBreaks_nil (g : CG) : g.withBreaks [] = g := rfl
+theorem CG.withBreaks_cons (g : CG) (j : Nat) (ps : List Nat) :
+    g.withBreaks (j :: ps) = (g.addBreak j).withBreaks ps := rfl
+@[simp] theorem CG.withBreaks_withBreaks (g : CG) (p1 p2 : List Nat) :
+    (g.withBreaks p1).withBreaks p2 = g.withBreaks (p1 ++ p2) := by
+  simp [CG.withBreaks, List.foldl_append]
+
+theorem withBreaks_comm (op : CG → CG) (h : ∀ g j, op (CG.addBreak g j) = (op g).addBreak j) :
+    ∀ (ps : List Nat) (g : CG), op (g.withBreaks ps) = (op g).withBreaks ps
+  | [], _ => rfl
+  | j :: ps, g => by rw [CG.withBreaks_cons, withBreaks_comm op h ps, h, ← CG.withBreaks_cons]
+
+@[simp] theorem CG.next_withBreaks : ∀ (ps : List Nat) (g : CG), (g.withBreaks ps).next = g.next
+  | [], _ => rfl
+  | j :: ps, g => by rw [CG.withBreaks_cons, CG.next_withBreaks ps]; rfl
+@[simp] theorem CG.aux_withBreaks : ∀ (ps : List Nat) (g : CG), (g.withBreaks ps).aux = g.aux
+  | [], _ => rfl
+  | j :: ps, g => by rw [CG.withBreaks_cons, CG.aux_withBreaks ps]; rfl
+@[simp] theorem CG.code_withBreaks : ∀ (ps : List Nat) (g : CG), (g.withBreaks ps).code = g.code
+  | [], _ => rfl
+  | j :: ps, g => by rw [CG.withBreaks_cons, CG.code_withBreaks ps]; rfl
+
+theorem CG.pending_withBreaks : ∀ (ps : List Nat) (g : CG),
+    (g.withBreaks ps).pending = ps.foldl (fun P j => CG.addBreakJump j P) g.pending
+  | [], _ => rfl
+  | j :: ps, g => by rw [CG.withBreaks_cons, CG.pending_withBreaks ps]; rfl
+
+theorem CG.withBreaks_eq (g : CG) (ps : List Nat) :
+    g.withBreaks ps = { g with pending := ps.foldl (fun P j => CG.addBreakJump j P) g.pending } := by
+  have h1 := CG.code_withBreaks ps g
+  have h2 := CG.aux_withBreaks ps g
+  have h3 := CG.pending_withBreaks ps g
+  cases hg : g.withBreaks ps
+  simp_all
+
+theorem foldl_addBreakJump_loop (it : Nat) (P : List Pending) : ∀ (ps js : List Nat),
+    ps.foldl (fun P j => CG.addBreakJump j P) (.loop it js :: P) = .loop it (js ++ ps) :: P
+  | [], js => by simp
+  | j :: ps, js => by simp [CG.addBreakJump, foldl_addBreakJump_loop it P ps]
+
+theorem foldl_addBreakJump_nil : ∀ (ps : List Nat), ps.foldl (fun P j => CG.addBreakJump j P) [] = []
+  | [] => rfl
+  | j :: ps => by simp [CG.addBreakJump, foldl_addBreakJump_nil ps]
+
+-- the generator operations of the fragment do not look at the recorded jumps
+theorem extend_withBreaks (g : CG) (r : List Instr × Aux) (ps : List Nat) :
+    (g.withBreaks ps).extend r = (g.extend r).withBreaks ps :=
+  withBreaks_comm (·.extend r) (fun _ _ => rfl) ps g
+
+theorem add_withBreaks (g : CG) (i : Instr) (ps : List Nat) :
+    (g.withBreaks ps).add i = (g.add i).withBreaks ps :=
+  withBreaks_comm (·.add i) (fun _ _ => rfl) ps g
+
+theorem startIf_withBreaks (g : CG) (ps : List Nat) : (g.withBreaks ps).startIf = g.startIf.withBreaks ps :=
+  withBreaks_comm (·.startIf) (fun g j => by simp [CG.startIf, CG.addBreak, CG.add, CG.next, CG.addBreakJump]) ps g
+
+theorem patch_addBreak (g : CG) (j i t : Nat) : (g.addBreak j).patch i t = (g.patch i t).addBreak j := by
+  simp only [CG.patch, CG.addBreak]
+  split <;> rfl
+
+theorem endCondition_addBreak (g : CG) (j t : Nat) :
+    (g.addBreak j).endCondition t = (g.endCondition t).addBreak j := by
+  cases g with
+  | mk code pending aux =>
+    cases pending with
+    | nil => simp [CG.endCondition, CG.addBreak, CG.addBreakJump, CG.markOof]
+    | cons p rest =>
+      cases p with
+      | branch k =>
+        simp only [CG.endCondition, CG.addBreak, CG.addBreakJump]
+        have := patch_addBreak { code := code, pending := .branch k :: rest, aux := aux } j k t
+        simp only [CG.addBreak, CG.addBreakJump] at this
+        rw [this]
+      | loop it js => simp [CG.endCondition, CG.addBreak, CG.addBreakJump, CG.markOof]
+      | scBool js => simp [CG.endCondition, CG.addBreak, CG.addBreakJump, CG.markOof]
+      | scope k => simp [CG.endCondition, CG.addBreak, CG.addBreakJump, CG.markOof]
+
+theorem startElse_withBreaks (g : CG) (ps : List Nat) : (g.withBreaks ps).startElse = g.startElse.withBreaks ps :=
+  withBreaks_comm (·.startElse) (fun g j => by
+    simp only [CG.startElse]
+    have h1 : (g.addBreak j).add (Instr.jump unpatched) = (g.add (Instr.jump unpatched)).addBreak j := rfl
+    have h2 : (g.addBreak j).next = g.next := rfl
+    rw [h1, h2, endCondition_addBreak]
+    simp [CG.addBreak, CG.addBreakJump]) ps g
+
+theorem endIf_withBreaks (g : CG) (ps : List Nat) : (g.withBreaks ps).endIf = g.endIf.withBreaks ps :=
+  withBreaks_comm (·.endIf) (fun g j => by
+    simp only [CG.endIf]
+    have h2 : (g.addBreak j).next = g.next := rfl
+    rw [h2, endCondition_addBreak]) ps g
+
+theorem startScope_withBreaks (g : CG) (k : ScopeKind) (ps : List Nat) :
+    (g.withBreaks ps).startScope k = (g.startScope k).withBreaks ps :=
+  withBreaks_comm (·.startScope k) (fun g j => by simp [CG.startScope, CG.addBreak, CG.addBreakJump]) ps g
+
+theorem endScope_withBreaks (g : CG) (ps : List Nat) : (g.withBreaks ps).endScope = g.endScope.withBreaks ps :=
+  withBreaks_comm (·.endScope) (fun g j => by
+    cases g with
+    | mk code pending aux =>
+      cases pending with
+      | nil => simp [CG.endScope, CG.addBreak, CG.addBreakJump, CG.markOof]
+      | cons p rest => cases p <;> simp [CG.endScope, CG.addBreak, CG.addBreakJump, CG.markOof]) ps g
 
 theorem endIf_noelse (A : List Instr) (P : List Pending) (a : Aux) (C : List Instr × Aux) (n : Nat)
     (hn : n = A.length) :
@@ -288,81 +650,350 @@ theorem filter_prefix_eq (t : Target) (iter c : Expr) (g : CG) (hi : simpleExpr 
   simp
   omega
 
+
+/-! ## loops with `break` jumps -/
+
+theorem patchAll_patched {E b ps L0 LE} (h : Patched E b ps L0 LE) : ∀ (g : CG) (pre post : List Instr),
+    b = pre.length → g.code = pre ++ L0 ++ post → g.patchAll ps E = { g with code := pre ++ LE ++ post } := by
+  induction h with
+  | nil b =>
+    intro g pre post _ hc
+    cases g; simp_all [CG.patchAll]
+  | same i _ ih =>
+    intro g pre post hb hc
+    have := ih g (pre ++ [i]) post (by simp [hb]) (by simp [hc])
+    simpa using this
+  | @brk b ps L0 LE _ ih =>
+    intro g pre post hb hc
+    have h1 : g.patch b E = { g with code := pre ++ Instr.jump E :: (L0 ++ post) } :=
+      patch_jump g pre (L0 ++ post) b 0 E (by simp [hc]) hb
+    have : g.patchAll (b :: ps) E = (g.patch b E).patchAll ps E := rfl
+    rw [this, h1]
+    have := ih { g with code := pre ++ Instr.jump E :: (L0 ++ post) } (pre ++ [Instr.jump E]) post (by simp [hb]) (by simp)
+    simpa using this
+
+theorem patchAll_append (g : CG) (p1 p2 : List Nat) (t : Nat) :
+    g.patchAll (p1 ++ p2) t = (g.patchAll p1 t).patchAll p2 t := by
+  simp [CG.patchAll, List.foldl_append]
+
+/-- a `for` loop whose body `Cb0` holds the `break` jumps `ps`: ending the loop patches them -/
+theorem for_block_brk (g : CG) (Ci Cb0 : List Instr × Aux) (ps : List Nat) (CbE : List Instr) (d : Bool)
+    (hp : Patched (g.next + Ci.1.length + 2 + Cb0.1.length + 1) (g.next + Ci.1.length + 2) ps Cb0.1 CbE) :
+    ((((g.extend Ci).startForLoop true).extend Cb0).withBreaks ps).endForLoop d =
+      g.extend (Ci.1 ++ [Instr.pushLoop 1, Instr.iterate (g.next + Ci.1.length + 2 + Cb0.1.length + 1)] ++ CbE ++
+        (Instr.jump (g.next + Ci.1.length + 1) :: (if d then [Instr.pushDidNotIterate] else []) ++ [Instr.popLoopFrame]),
+        Cb0.2) := by
+  rw [CG.withBreaks_eq]
+  simp only [CG.startForLoop, CG.extend, CG.add, CG.next, foldl_addBreakJump_loop, List.nil_append, if_true]
+  simp only [CG.endForLoop, CG.add, CG.next, patchAll_append]
+  have hp' : Patched (g.code ++ Ci.1 ++ [Instr.pushLoop 1] ++ [Instr.iterate unpatched] ++ Cb0.1 ++
+      [Instr.jump (g.code ++ Ci.1 ++ [Instr.pushLoop 1]).length]).length
+      (g.code ++ Ci.1 ++ [Instr.pushLoop 1] ++ [Instr.iterate unpatched]).length ps Cb0.1 CbE := by
+    have e1 : (g.code ++ Ci.1 ++ [Instr.pushLoop 1] ++ [Instr.iterate unpatched] ++ Cb0.1 ++
+      [Instr.jump (g.code ++ Ci.1 ++ [Instr.pushLoop 1]).length]).length = g.next + Ci.1.length + 2 + Cb0.1.length + 1 := by
+      simp [CG.next]; omega
+    have e2 : (g.code ++ Ci.1 ++ [Instr.pushLoop 1] ++ [Instr.iterate unpatched]).length = g.next + Ci.1.length + 2 := by
+      simp [CG.next]; omega
+    rw [e1, e2]; exact hp
+  cases d with
+  | false =>
+    simp only [Bool.false_eq_true, if_false]
+    rw [patchAll_patched hp' _ (g.code ++ Ci.1 ++ [Instr.pushLoop 1] ++ [Instr.iterate unpatched])
+      ([Instr.jump (g.code ++ Ci.1 ++ [Instr.pushLoop 1]).length] ++ [Instr.popLoopFrame])
+      rfl (by simp)]
+    simp only [CG.patchAll, List.foldl]
+    rw [patch_iterate _ (g.code ++ Ci.1 ++ [Instr.pushLoop 1]) (CbE ++ [Instr.jump (g.code ++ Ci.1 ++ [Instr.pushLoop 1]).length] ++ [Instr.popLoopFrame])
+      _ unpatched _ (by simp) (by simp)]
+    simp [CG.next, Nat.add_assoc]; omega
+  | true =>
+    simp only [if_true]
+    rw [patchAll_patched hp' _ (g.code ++ Ci.1 ++ [Instr.pushLoop 1] ++ [Instr.iterate unpatched])
+      ([Instr.jump (g.code ++ Ci.1 ++ [Instr.pushLoop 1]).length] ++ [Instr.pushDidNotIterate] ++ [Instr.popLoopFrame])
+      rfl (by simp)]
+    simp only [CG.patchAll, List.foldl]
+    rw [patch_iterate _ (g.code ++ Ci.1 ++ [Instr.pushLoop 1])
+      (CbE ++ [Instr.jump (g.code ++ Ci.1 ++ [Instr.pushLoop 1]).length] ++ [Instr.pushDidNotIterate] ++ [Instr.popLoopFrame])
+      _ unpatched _ (by simp) (by simp)]
+    simp [CG.next, Nat.add_assoc]; omega
+
+/-! ## the generator's view of the innermost loop -/
+
+/-- the pending blocks of the generator describe the loop context `lc` -/
+def Compat (P : List Pending) : Option LoopCtx → Prop
+  | none => True
+  | some l => CG.innermostLoopIter P = some l.iter ∧ CG.scopesOfInnermostLoop P = l.scopes
+
+theorem Compat_setExit (P : List Pending) (E : Nat) (lc : Option LoopCtx) : Compat P (setExit E lc) ↔ Compat P lc := by
+  cases lc <;> simp [Compat, setExit]
+
+theorem iter_addBreakJump (j : Nat) : ∀ (P : List Pending),
+    CG.innermostLoopIter (CG.addBreakJump j P) = CG.innermostLoopIter P
+  | [] => rfl
+  | .loop _ _ :: _ => rfl
+  | .branch _ :: P => by simp [CG.addBreakJump, CG.innermostLoopIter, iter_addBreakJump j P]
+  | .scBool _ :: P => by simp [CG.addBreakJump, CG.innermostLoopIter, iter_addBreakJump j P]
+  | .scope _ :: P => by simp [CG.addBreakJump, CG.innermostLoopIter, iter_addBreakJump j P]
+
+theorem scopes_addBreakJump (j : Nat) : ∀ (P : List Pending),
+    CG.scopesOfInnermostLoop (CG.addBreakJump j P) = CG.scopesOfInnermostLoop P
+  | [] => rfl
+  | .loop _ _ :: _ => rfl
+  | .branch _ :: P => by simp [CG.addBreakJump, CG.scopesOfInnermostLoop, scopes_addBreakJump j P]
+  | .scBool _ :: P => by simp [CG.addBreakJump, CG.scopesOfInnermostLoop, scopes_addBreakJump j P]
+  | .scope _ :: P => by simp [CG.addBreakJump, CG.scopesOfInnermostLoop, scopes_addBreakJump j P]
+
+@[simp] theorem iter_withBreaks : ∀ (ps : List Nat) (g : CG),
+    CG.innermostLoopIter (g.withBreaks ps).pending = CG.innermostLoopIter g.pending
+  | [], _ => rfl
+  | j :: ps, g => by
+    rw [CG.withBreaks_cons, iter_withBreaks ps]; simp [CG.addBreak, iter_addBreakJump]
+@[simp] theorem scopes_withBreaks : ∀ (ps : List Nat) (g : CG),
+    CG.scopesOfInnermostLoop (g.withBreaks ps).pending = CG.scopesOfInnermostLoop g.pending
+  | [], _ => rfl
+  | j :: ps, g => by
+    rw [CG.withBreaks_cons, scopes_withBreaks ps]; simp [CG.addBreak, scopes_addBreakJump]
+
+@[simp] theorem iter_startIf (g : CG) : CG.innermostLoopIter g.startIf.pending = CG.innermostLoopIter g.pending := by
+  simp [CG.startIf, CG.add, CG.innermostLoopIter]
+@[simp] theorem scopes_startIf (g : CG) : CG.scopesOfInnermostLoop g.startIf.pending = CG.scopesOfInnermostLoop g.pending := by
+  simp [CG.startIf, CG.add, CG.scopesOfInnermostLoop]
+
+theorem pending_endCondition (g : CG) (t : Nat) :
+    CG.innermostLoopIter (g.endCondition t).pending = CG.innermostLoopIter g.pending ∧
+    CG.scopesOfInnermostLoop (g.endCondition t).pending = CG.scopesOfInnermostLoop g.pending := by
+  cases g with
+  | mk code pending aux =>
+    cases pending with
+    | nil => simp [CG.endCondition, CG.markOof]
+    | cons p rest =>
+      cases p <;> simp [CG.endCondition, CG.markOof, CG.innermostLoopIter, CG.scopesOfInnermostLoop]
+
+@[simp] theorem iter_startElse (g : CG) : CG.innermostLoopIter g.startElse.pending = CG.innermostLoopIter g.pending := by
+  simp only [CG.startElse, CG.innermostLoopIter]
+  exact (pending_endCondition _ _).1
+@[simp] theorem scopes_startElse (g : CG) :
+    CG.scopesOfInnermostLoop g.startElse.pending = CG.scopesOfInnermostLoop g.pending := by
+  simp only [CG.startElse, CG.scopesOfInnermostLoop]
+  exact (pending_endCondition _ _).2
+
+@[simp] theorem iter_startScope (g : CG) (k : ScopeKind) :
+    CG.innermostLoopIter (g.startScope k).pending = CG.innermostLoopIter g.pending := by
+  simp [CG.startScope, CG.innermostLoopIter]
+@[simp] theorem scopes_startScope (g : CG) (k : ScopeKind) :
+    CG.scopesOfInnermostLoop (g.startScope k).pending = k :: CG.scopesOfInnermostLoop g.pending := by
+  simp [CG.startScope, CG.scopesOfInnermostLoop]
+@[simp] theorem pending_add (g : CG) (i : Instr) : (g.add i).pending = g.pending := rfl
+@[simp] theorem iter_startForLoop (g : CG) (b : Bool) :
+    CG.innermostLoopIter (g.startForLoop b).pending = some (g.next + 1) := by
+  simp [CG.startForLoop, CG.add, CG.next, CG.innermostLoopIter]
+@[simp] theorem scopes_startForLoop (g : CG) (b : Bool) :
+    CG.scopesOfInnermostLoop (g.startForLoop b).pending = [] := by
+  simp [CG.startForLoop, CG.add, CG.scopesOfInnermostLoop]
+
+theorem leaveFold_eq : ∀ (sc : List ScopeKind) (g : CG),
+    sc.foldl (fun g k => match k with
+      | .with_ => g.add .popFrame
+      | .capture => (g.add .endCapture).add .discardTop) g = g.extend (leaveCode sc, g.aux)
+  | [], g => by simp [leaveCode, CG.extend]
+  | .with_ :: rest, g => by
+    simp only [List.foldl, leaveCode]; rw [leaveFold_eq rest]; simp [CG.extend, CG.add]
+  | .capture :: rest, g => by
+    simp only [List.foldl, leaveCode]; rw [leaveFold_eq rest]; simp [CG.extend, CG.add]
+
+theorem leaveScopes_eq (g : CG) :
+    g.leaveScopes = g.extend (leaveCode (CG.scopesOfInnermostLoop g.pending), g.aux) :=
+  leaveFold_eq _ g
+
+theorem Compat_of_view {P P' : List Pending} {lc : Option LoopCtx}
+    (h1 : CG.innermostLoopIter P' = CG.innermostLoopIter P)
+    (h2 : CG.scopesOfInnermostLoop P' = CG.scopesOfInnermostLoop P) (h : Compat P lc) : Compat P' lc := by
+  cases lc with
+  | none => trivial
+  | some l => exact ⟨h1.trans h.1, h2.trans h.2⟩
+
+theorem Compat_push {P P' : List Pending} {lc : Option LoopCtx} {k : ScopeKind}
+    (h1 : CG.innermostLoopIter P' = CG.innermostLoopIter P)
+    (h2 : CG.scopesOfInnermostLoop P' = k :: CG.scopesOfInnermostLoop P) (h : Compat P lc) :
+    Compat P' (pushScope k lc) := by
+  cases lc with
+  | none => trivial
+  | some l => exact ⟨h1.trans h.1, by rw [h2, h.2]⟩
+
+theorem Patched.cast2 {E E' b b' ps L0 LE} (h : Patched E b ps L0 LE) (hE : E = E') (hb : b = b') :
+    Patched E' b' ps L0 LE := by
+  subst hE; subst hb; exact h
+
+/-- the code in front of the loop body (copy of the first part of the `for` case of `cStmt`) -/
+def cForPrefix (target : Target) (iter : Expr) (filter : Option Expr) (g : CG) : CG :=
+  match filter with
+  | some cond =>
+    let g := g.add (.loadConst (.int 0))
+    let g := (cExpr iter g).startForLoop false
+    let g := cTarget target (g.add .dupTop)
+    let g := (cExpr cond g).startIf
+    let g := ((g.add .swap).add (.loadConst (.int 1))).add .add
+    let g := (g.startElse.add .discardTop).endIf
+    let g := (g.endForLoop false).add (.buildList none)
+    g.startForLoop true
+  | none => (cExpr iter g).startForLoop true
+
+theorem cStmt_for (target : Target) (iter : Expr) (filter : Option Expr) (body els : List Stmt) (g : CG) :
+    cStmt (.forS target iter filter body els) g =
+      (match els with
+        | [] => (cBlock body (cTarget target (cForPrefix target iter filter g))).endForLoop false
+        | _ :: _ => (cBlock els ((cBlock body (cTarget target (cForPrefix target iter filter g))).endForLoop true).startIf).endIf) := by
+  cases filter <;> cases els <;> simp only [cStmt, cForPrefix]
+
+theorem cForPrefix_eq (t : Target) (iter : Expr) (flt : Option Expr) (g : CG) (hi : simpleExpr iter = true)
+    (hc : ∀ c, flt = some c → simpleExpr c = true) :
+    cForPrefix t iter flt g = (g.extend (relForIter t iter flt g.next g.aux)).startForLoop true := by
+  cases flt with
+  | none => simp only [cForPrefix, relForIter]; rw [cExpr_eq_rel iter g hi]
+  | some c => simp only [cForPrefix]; rw [filter_prefix_eq t iter c g hi (hc c rfl)]
+
 mutual
-theorem cStmt_eq_rel : ∀ (st : Stmt) (g : CG), simpleStmt st = true →
-    cStmt st g = g.extend (relStmt st g.next g.aux)
-  | .text t, g, _ => by simp [cStmt, relStmt, CG.add_eq_extend]
-  | .emit e, g, h => by
+theorem cStmt_eq_rel : ∀ (st : Stmt) (g : CG) (lc : Option LoopCtx), simpleStmt lc.isSome st = true →
+    Compat g.pending lc →
+    cStmt st g = (g.extend (relStmt st g.next g.aux (setExit 0 lc)).1).withBreaks
+      (relStmt st g.next g.aux (setExit 0 lc)).2
+  | .text t, g, lc, _, _ => by simp [cStmt, relStmt, CG.add_eq_extend]
+  | .emit e, g, lc, h, _ => by
     have hs : simpleExpr e = true := by simpa [simpleStmt] using h
     simp [cStmt, relStmt, cExpr_eq_rel e g hs]
-  | .set t e, g, h => by
+  | .set t e, g, lc, h, _ => by
     have hs : simpleExpr e = true := by simpa [simpleStmt] using h
     simp [cStmt, relStmt, cExpr_eq_rel e g hs, cTarget_eq_rel, CG.extend_extend]
-  | .ifS c t [], g, h => by
-    have hs : simpleExpr c = true ∧ simpleBlock t = true := by simpa [simpleStmt, simpleBlock] using h
+  | .ifS c t [], g, lc, h, hc => by
+    have hs : simpleExpr c = true ∧ simpleBlock lc.isSome t = true := by simpa [simpleStmt, simpleBlock] using h
     simp only [cStmt, relStmt]
-    rw [cExpr_eq_rel c g hs.1, cBlock_eq_rel t _ hs.2, if_block_noelse]
+    rw [cExpr_eq_rel c g hs.1, cBlock_eq_rel t _ lc hs.2 (Compat_of_view (by simp) (by simp) hc),
+      endIf_withBreaks, if_block_noelse]
     simp [Nat.add_assoc]
-  | .ifS c t (f :: fs), g, h => by
-    have hs : (simpleExpr c = true ∧ simpleBlock t = true) ∧ simpleBlock (f :: fs) = true := by
+  | .ifS c t (f :: fs), g, lc, h, hc => by
+    have hs : (simpleExpr c = true ∧ simpleBlock lc.isSome t = true) ∧ simpleBlock lc.isSome (f :: fs) = true := by
       simpa [simpleStmt] using h
     simp only [cStmt, relStmt]
-    rw [cExpr_eq_rel c g hs.1.1, cBlock_eq_rel t _ hs.1.2, cBlock_eq_rel (f :: fs) _ hs.2, if_block]
+    rw [cExpr_eq_rel c g hs.1.1, cBlock_eq_rel t _ lc hs.1.2 (Compat_of_view (by simp) (by simp) hc),
+      startElse_withBreaks,
+      cBlock_eq_rel (f :: fs) _ lc hs.2 (Compat_of_view (by simp) (by simp) hc),
+      extend_withBreaks, CG.withBreaks_withBreaks, endIf_withBreaks]
+    simp only [CG.next_withBreaks, CG.aux_withBreaks]
+    rw [if_block]
     simp [Nat.add_assoc]
-  | .withS binds body, g, h => by
-    have hs : simpleBinds binds = true ∧ simpleBlock body = true := by simpa [simpleStmt] using h
-    simp only [cStmt, relStmt]
-    rw [cBinds_eq_rel binds _ hs.1, cBlock_eq_rel body _ hs.2]
+  | .withS binds body, g, lc, h, hc => by
+    have hs : simpleBinds binds = true ∧ simpleBlock (pushScope .with_ lc).isSome body = true := by
+      simpa [simpleStmt] using h
+    simp only [cStmt, relStmt, pushScope_setExit]
+    rw [cBinds_eq_rel binds _ hs.1,
+      cBlock_eq_rel body _ (pushScope .with_ lc) hs.2 (Compat_push (by simp) (by simp) hc),
+      endScope_withBreaks, add_withBreaks]
+    congr 1 <;>
     simp [CG.startScope, CG.endScope, CG.extend, CG.add, CG.next, Nat.add_assoc, Nat.add_comm]
-  | .forS t iter none body [], g, h => by
-    have hs : simpleExpr iter = true ∧ simpleBlock body = true := by
-      simpa [simpleStmt, simpleBlock] using h
-    simp only [cStmt, relStmt, relForIter]
-    rw [cExpr_eq_rel iter g hs.1, cTarget_eq_rel, cBlock_eq_rel body _ hs.2, CG.extend_extend, for_block]
-    simp [Nat.add_assoc]
-  | .forS t iter none body (e0 :: es), g, h => by
-    have hs : (simpleExpr iter = true ∧ simpleBlock body = true) ∧ simpleBlock (e0 :: es) = true := by
+  | .forS t iter flt body [], g, lc, h, hc => by
+    have hs : (simpleExpr iter = true ∧ (∀ c, flt = some c → simpleExpr c = true)) ∧ simpleBlock true body = true := by
+      cases flt <;> simp [simpleStmt, simpleBlock] at h <;> simp [h]
+    rw [cStmt_for, cForPrefix_eq t iter flt g hs.1.1 hs.1.2]
+    simp only
+    rw [cTarget_eq_rel,
+      cBlock_eq_rel body _ (some ⟨g.next + (relForIter t iter flt g.next g.aux).1.length + 1, 0, []⟩) hs.2
+        ⟨by simp, by simp⟩]
+    simp only [CG.next_extend, next_startFor_ext, aux_startFor_ext, CG.extend_aux, setExit, relStmt]
+    have hp := (relBlock_patched body (g.next + (relForIter t iter flt g.next g.aux).1.length + 2 + (relTarget t).length)
+      (relForIter t iter flt g.next g.aux).2 (some ⟨g.next + (relForIter t iter flt g.next g.aux).1.length + 1, 0, []⟩)
+      (g.next + (relForIter t iter flt g.next g.aux).1.length + 2 + (relTarget t).length +
+        (relBlock body (g.next + (relForIter t iter flt g.next g.aux).1.length + 2 + (relTarget t).length)
+          (relForIter t iter flt g.next g.aux).2
+          (some ⟨g.next + (relForIter t iter flt g.next g.aux).1.length + 1, 0, []⟩)).1.1.length + 1))
+    simp only [setExit] at hp
+    generalize relForIter t iter flt g.next g.aux = Ri at hp ⊢
+    generalize relBlock body (g.next + Ri.1.length + 2 + (relTarget t).length) Ri.2
+      (some ⟨g.next + Ri.1.length + 1, 0, []⟩) = R0 at hp ⊢
+    generalize relBlock body (g.next + Ri.1.length + 2 + (relTarget t).length) Ri.2
+      (some ⟨g.next + Ri.1.length + 1, g.next + Ri.1.length + 2 + (relTarget t).length + R0.1.1.length + 1, []⟩) = RE at hp ⊢
+    obtain ⟨hp1, hp2, hp3⟩ := hp
+    rw [CG.extend_extend, for_block_brk g Ri _ R0.2 (relTarget t ++ RE.1.1) false
+      ((Patched.pre (b := g.next + Ri.1.length + 2) (relTarget t) hp1).cast2
+        (by simp only [List.length_append]; omega) rfl)]
+    simp [hp2, Nat.add_assoc]
+  | .forS t iter flt body (e0 :: es), g, lc, h, hc => by
+    have hs : ((simpleExpr iter = true ∧ (∀ c, flt = some c → simpleExpr c = true)) ∧ simpleBlock true body = true) ∧
+        simpleBlock lc.isSome (e0 :: es) = true := by
+      cases flt <;> simp [simpleStmt] at h <;> simp [h]
+    rw [cStmt_for, cForPrefix_eq t iter flt g hs.1.1.1 hs.1.1.2]
+    simp only
+    rw [cTarget_eq_rel,
+      cBlock_eq_rel body _ (some ⟨g.next + (relForIter t iter flt g.next g.aux).1.length + 1, 0, []⟩) hs.1.2
+        ⟨by simp, by simp⟩]
+    simp only [CG.next_extend, next_startFor_ext, aux_startFor_ext, CG.extend_aux, setExit_some, relStmt]
+    have hp := (relBlock_patched body (g.next + (relForIter t iter flt g.next g.aux).1.length + 2 + (relTarget t).length)
+      (relForIter t iter flt g.next g.aux).2 (some ⟨g.next + (relForIter t iter flt g.next g.aux).1.length + 1, 0, []⟩)
+      (g.next + (relForIter t iter flt g.next g.aux).1.length + 2 + (relTarget t).length +
+        (relBlock body (g.next + (relForIter t iter flt g.next g.aux).1.length + 2 + (relTarget t).length)
+          (relForIter t iter flt g.next g.aux).2
+          (some ⟨g.next + (relForIter t iter flt g.next g.aux).1.length + 1, 0, []⟩)).1.1.length + 1))
+    simp only [setExit] at hp
+    generalize relForIter t iter flt g.next g.aux = Ri at hp ⊢
+    generalize relBlock body (g.next + Ri.1.length + 2 + (relTarget t).length) Ri.2
+      (some ⟨g.next + Ri.1.length + 1, 0, []⟩) = R0 at hp ⊢
+    generalize relBlock body (g.next + Ri.1.length + 2 + (relTarget t).length) Ri.2
+      (some ⟨g.next + Ri.1.length + 1, g.next + Ri.1.length + 2 + (relTarget t).length + R0.1.1.length + 1, []⟩) = RE at hp ⊢
+    obtain ⟨hp1, hp2, hp3⟩ := hp
+    rw [CG.extend_extend, for_block_brk g Ri _ R0.2 (relTarget t ++ RE.1.1) true
+      ((Patched.pre (b := g.next + Ri.1.length + 2) (relTarget t) hp1).cast2
+        (by simp only [List.length_append]; omega) rfl),
+      cBlock_eq_rel (e0 :: es) _ lc hs.2 (Compat_of_view (by simp) (by simp) hc), endIf_withBreaks]
+    simp only [next_startIf_ext, aux_startIf_ext]
+    rw [if_block_noelse]
+    simp [hp1.length_eq, hp2, Nat.add_assoc]
+    have hb : g.next + (Ri.1.length + ((relTarget t).length + (R0.1.1.length + 6))) =
+        g.next + (Ri.1.length + (2 + ((relTarget t).length + (R0.1.1.length + 4)))) := by omega
+    rw [hb]
+    have hj : ∀ n, g.next + (Ri.1.length + ((relTarget t).length + (R0.1.1.length + (6 + n)))) =
+        g.next + (Ri.1.length + (2 + ((relTarget t).length + (R0.1.1.length + (4 + n))))) := by intro n; omega
+    rw [hj]
+  | .setBlock x filters body, g, lc, h, hc => by
+    have hs : simpleFilters filters = true ∧ simpleBlock (pushScope .capture lc).isSome body = true := by
       simpa [simpleStmt] using h
-    simp only [cStmt, relStmt, relForIter]
-    rw [cExpr_eq_rel iter g hs.1.1, cTarget_eq_rel, cBlock_eq_rel body _ hs.1.2, CG.extend_extend,
-      cBlock_eq_rel (e0 :: es) _ hs.2, next_forElse_startIf, aux_forElse_startIf, for_else_block]
-    simp [Nat.add_assoc]
-  | .forS t iter (some c) body [], g, h => by
-    have hs : (simpleExpr iter = true ∧ simpleExpr c = true) ∧ simpleBlock body = true := by
-      simpa [simpleStmt, simpleBlock] using h
-    simp only [cStmt, relStmt]
-    rw [filter_prefix_eq t iter c g hs.1.1 hs.1.2, cTarget_eq_rel, cBlock_eq_rel body _ hs.2,
-      CG.extend_extend, for_block]
-    simp [Nat.add_assoc]
-  | .forS t iter (some c) body (e0 :: es), g, h => by
-    have hs : ((simpleExpr iter = true ∧ simpleExpr c = true) ∧ simpleBlock body = true) ∧
-        simpleBlock (e0 :: es) = true := by
+    simp only [cStmt, relStmt, pushScope_setExit]
+    rw [cBlock_eq_rel body _ (pushScope .capture lc) hs.2 (Compat_push (by simp) (by simp) hc),
+      endScope_withBreaks, add_withBreaks, cFilters_eq_rel filters _ hs.1, extend_withBreaks, add_withBreaks]
+    simp only [CG.next_withBreaks, CG.aux_withBreaks]
+    rw [scope_block]
+    congr 1 <;>
+    simp [CG.extend, CG.add, CG.next, CG.startScope, Nat.add_assoc, Nat.add_comm, Nat.add_left_comm]
+  | .filterBlock filters body, g, lc, h, hc => by
+    have hs : simpleFilters filters = true ∧ simpleBlock (pushScope .capture lc).isSome body = true := by
       simpa [simpleStmt] using h
-    simp only [cStmt, relStmt]
-    rw [filter_prefix_eq t iter c g hs.1.1.1 hs.1.1.2, cTarget_eq_rel, cBlock_eq_rel body _ hs.1.2,
-      CG.extend_extend, cBlock_eq_rel (e0 :: es) _ hs.2, next_forElse_startIf, aux_forElse_startIf, for_else_block]
-    simp [Nat.add_assoc]
-  | .setBlock x filters body, g, h => by
-    have hs : simpleFilters filters = true ∧ simpleBlock body = true := by simpa [simpleStmt] using h
-    simp only [cStmt, relStmt]
-    rw [cBlock_eq_rel body _ hs.2, scope_block, cFilters_eq_rel filters _ hs.1]
+    simp only [cStmt, relStmt, pushScope_setExit]
+    rw [cBlock_eq_rel body _ (pushScope .capture lc) hs.2 (Compat_push (by simp) (by simp) hc),
+      endScope_withBreaks, add_withBreaks, cFilters_eq_rel filters _ hs.1, extend_withBreaks, add_withBreaks]
+    simp only [CG.next_withBreaks, CG.aux_withBreaks]
+    rw [scope_block]
+    congr 1 <;>
     simp [CG.extend, CG.add, CG.next, CG.startScope, Nat.add_assoc, Nat.add_comm, Nat.add_left_comm]
-  | .filterBlock filters body, g, h => by
-    have hs : simpleFilters filters = true ∧ simpleBlock body = true := by simpa [simpleStmt] using h
-    simp only [cStmt, relStmt]
-    rw [cBlock_eq_rel body _ hs.2, scope_block, cFilters_eq_rel filters _ hs.1]
-    simp [CG.extend, CG.add, CG.next, CG.startScope, Nat.add_assoc, Nat.add_comm, Nat.add_left_comm]
-  | .macroS .., _, h => by simp [simpleStmt] at h
-  | .callBlock .., _, h => by simp [simpleStmt] at h
-  | .breakS, _, h => by simp [simpleStmt] at h
-  | .continueS, _, h => by simp [simpleStmt] at h
-theorem cBlock_eq_rel : ∀ (ss : List Stmt) (g : CG), simpleBlock ss = true →
-    cBlock ss g = g.extend (relBlock ss g.next g.aux)
-  | [], g, _ => by simp [cBlock, relBlock, CG.extend]
-  | s :: rest, g, h => by
-    have hs : simpleStmt s = true ∧ simpleBlock rest = true := by simpa [simpleBlock] using h
+  | .macroS .., _, lc, h, _ => by simp [simpleStmt] at h
+  | .callBlock .., _, lc, h, _ => by simp [simpleStmt] at h
+  | .breakS, g, none, h, _ => by simp [simpleStmt] at h
+  | .breakS, g, some l, _, hc => by
+    simp only [cStmt, relStmt, setExit]
+    rw [leaveScopes_eq, hc.2]
+    simp [CG.withBreaks, CG.addBreak, CG.extend, CG.add, CG.next, Nat.add_assoc]
+  | .continueS, g, none, h, _ => by simp [simpleStmt] at h
+  | .continueS, g, some l, _, hc => by
+    simp only [cStmt, relStmt, setExit]
+    rw [leaveScopes_eq, hc.2]
+    have h1 := hc.1
+    simp [h1, CG.extend, CG.add]
+theorem cBlock_eq_rel : ∀ (ss : List Stmt) (g : CG) (lc : Option LoopCtx), simpleBlock lc.isSome ss = true →
+    Compat g.pending lc →
+    cBlock ss g = (g.extend (relBlock ss g.next g.aux (setExit 0 lc)).1).withBreaks
+      (relBlock ss g.next g.aux (setExit 0 lc)).2
+  | [], g, lc, _, _ => by simp [cBlock, relBlock, CG.extend]
+  | s :: rest, g, lc, h, hc => by
+    have hs : simpleStmt lc.isSome s = true ∧ simpleBlock lc.isSome rest = true := by simpa [simpleBlock] using h
     simp only [cBlock, relBlock]
-    rw [cStmt_eq_rel s g hs.1, cBlock_eq_rel rest _ hs.2]
+    rw [cStmt_eq_rel s g lc hs.1 hc, cBlock_eq_rel rest _ lc hs.2 (Compat_of_view (by simp) (by simp) hc),
+      extend_withBreaks, CG.withBreaks_withBreaks]
     simp [CG.extend_extend]
 end
 
